@@ -1359,6 +1359,10 @@ def assemble(g: Gen, draw, force_outputs=()):
         opsets.append(helper.make_opsetid(d, 1))
     model = helper.make_model(graph, opset_imports=opsets, functions=list(g.functions.values()),
                               ir_version=OPSET_IR.get(g.opset, 8), producer_name="verif-modelgen")
+    if vi_mode == "infer" and "symbolic_dims" in g.features and g.opset < 11:
+        # onnx's shape inference for Slice-10 keeps the symbolic dim of a sliced axis (x[K,3][2:] is annotated [K,3]): the annotation would
+        # contradict the model for every binding but the sample, and an optimizer may rely on annotations
+        vi_mode = None
     if vi_mode == "infer":
         try:
             model = onnx.shape_inference.infer_shapes(model, data_prop=bool(draw(st.booleans())))
